@@ -10,7 +10,8 @@
 From Coq Require Import String.
 From Coq Require Import List NArith Bool.
 From Wpull Require Import Lib.Decimal Lib.FsModel Model.Warc
-  Proofs.WarcParse Proofs.WarcSteps Proofs.WarcInv Proofs.WarcLife Proofs.WarcSess Proofs.WarcThms Proofs.WarcToy.
+  Proofs.WarcParse Proofs.WarcSteps Proofs.WarcInv Proofs.WarcLife Proofs.WarcSess Proofs.WarcThms Proofs.WarcIds
+  Model.WarcText Proofs.WarcSniff Proofs.WarcToy.
 Import ListNotations.
 Open Scope N_scope.
 
@@ -58,6 +59,19 @@ Theorem C05_payload_after_header :
                     fget n_pdig (efields e) = Some (v_sha1 ++ o_H O body))) (evs st).
 Proof. exact payload_after_header. Qed.
 Print Assumptions C05_payload_after_header.
+
+(* "The HTTP header block inside the block": when the bytes received before
+   begin_response are a header block of LF-terminated lines (status line, field
+   lines, the empty line - which is what http/stream.py read_response consumes
+   and reports), an independent line reader splits the block exactly there, so
+   the [body] of C05_payload_after_header is what follows the header block. *)
+Theorem C05_header_block_split :
+  forall sl fl b body,
+    Forall line_ok (sl :: fl) -> blank_ok b ->
+    read_header_block (S (length (hblock sl fl b ++ body))) (hblock sl fl b ++ body)
+    = Some (hblock sl fl b, body).
+Proof. exact header_block_split. Qed.
+Print Assumptions C05_header_block_split.
 
 (* A revisit record's block is exactly the header block; Content-Length and block
    digest are those of the cut block, the payload digest that of the payload seen. *)
@@ -145,6 +159,19 @@ Theorem C05_points_at_warcinfo :
 Proof. exact points_at_warcinfo. Qed.
 Print Assumptions C05_points_at_warcinfo.
 
+(* Record ids are unique: when the id oracle (uuid4) never repeats, the
+   WARC-Record-ID fields of all records written during the recorder's life are
+   present and pairwise distinct (a record under construction is written at most
+   once; every set_common_fields call takes a fresh id). *)
+Theorem C05_ids_unique :
+  forall fuel O C s0 ops logblock st,
+    (forall a b, o_id O a = o_id O b -> a = b) ->
+    lifetime fuel O C s0 ops logblock = Some st ->
+    NoDup (map (fun e => fget n_id (efields e)) (evs st))
+    /\ Forall (fun e => fget n_id (efields e) <> None) (evs st).
+Proof. exact ids_unique. Qed.
+Print Assumptions C05_ids_unique.
+
 (* Non-vacuity: a concrete lifetime (toy oracles satisfying every hypothesis
    above; digests, CDX, log, max_size 600; an HTTP exchange interleaved with an
    FTP session, then a revisit) runs to completion, writes 12 records into five
@@ -152,6 +179,7 @@ Print Assumptions C05_points_at_warcinfo.
    revisit record, plain and compressed. *)
 Example C05_nonvacuous :
   clean_oracles toyO /\ Forall op_clean toy_ops
+  /\ (forall a b, o_id toyO a = o_id toyO b -> a = b)
   /\ (forall k m rest, toy_gunz (o_gz toyO k m ++ rest) = Some (m, rest))
   /\ (forall k m, o_gz toyO k m <> [])
   /\ forall compress, exists st,
@@ -161,7 +189,7 @@ Example C05_nonvacuous :
        /\ existsb (fun e => match e_ghost e with GResponse (_ :: _) _ => true | _ => false end) (evs st) = true
        /\ existsb (fun e => match e_ghost e with GRevisit (_ :: _) _ _ => true | _ => false end) (evs st) = true.
 Proof.
-  split; [exact toy_clean_oracles|]. split; [exact toy_ops_clean|].
+  split; [exact toy_clean_oracles|]. split; [exact toy_ops_clean|]. split; [exact toy_id_inj|].
   split; [exact toy_gunz_spec|]. split; [exact toy_gz_nonempty|].
   intros [|]; eexists; (split; [vm_compute; reflexivity|]); vm_compute; repeat split.
 Qed.
